@@ -35,7 +35,7 @@ func main() {
 	signingFees(run)
 	oracleSignFees(run)
 	sim.ParallelCases(run.N(120, 3000), 16, func(i int) { dataRequestFees(run, i) })
-	for _, c := range []string{"req-paid", "member-payouts", "req-rejected-over-limit", "ledger-blocks-checked", "oracle-req-paid", "oracle-req-free",
+	for _, c := range []string{"req-paid", "member-payouts", "fee-per-signer-changed-mid-history", "member-payouts-at-the-fee-charged-before-a-fee-change", "req-rejected-over-limit", "ledger-blocks-checked", "oracle-req-paid", "oracle-req-free",
 		"oracle-req-rejected-over-limit", "oracle-req-rejected-insufficient-balance", "oracle-ledger-blocks-checked",
 		"oracle-tss-requests", "oracle-tss-result-signings-paid", "oracle-tss-result-signing-refused:limit-exhausted", "oracle-tss-resolved-without-success"} {
 		run.Require(c, 1)
